@@ -30,7 +30,10 @@ type c06Op struct {
 type c06Stim struct {
 	ID   int              `json:"id"`
 	Init map[string][]int `json:"init"`
-	Ops  []c06Op          `json:"ops"`
+	// how each variable's initial list is built: "" / "exact" (list ...), "spare" (a remove result: the slice has
+	// spare capacity), "tail" (cdr of a longer list), "butlast" (butlast of a longer list), "appended" (append result)
+	Mode map[string]string `json:"mode"`
+	Ops  []c06Op           `json:"ops"`
 }
 
 var c06Vars = []string{"lx", "ly", "lz"}
@@ -55,7 +58,25 @@ func c06Ints(o slip.Object) ([]int, bool) {
 
 func c06Form(op c06Op) string {
 	switch op.Op {
-	case "copy-list", "reverse", "butlast", "cdr", "last", "nreverse":
+	case "append0":
+		return fmt.Sprintf("(setq %s (append '() %s (list %d)))", op.Dst, op.Src, op.A)
+	case "append3":
+		return fmt.Sprintf("(setq %s (append %s %s (list %d)))", op.Dst, op.Src, op.Src2, op.A)
+	case "add":
+		return fmt.Sprintf("(setq %s (add %s %d))", op.Dst, op.Src, op.A)
+	case "remove-if":
+		return fmt.Sprintf("(setq %s (remove-if #'oddp %s))", op.Dst, op.Src)
+	case "rest0":
+		return fmt.Sprintf("(setq %s (nthcdr 0 %s))", op.Dst, op.Src)
+	case "push":
+		return fmt.Sprintf("(push %d %s)", op.A, op.Src)
+	case "pop":
+		return fmt.Sprintf("(let ((p (pop %s))) (if p (list p) nil))", op.Src)
+	case "setelt":
+		return fmt.Sprintf("(progn (setf (elt %s %d) %d) nil)", op.Src, op.K, op.A)
+	case "rplacd":
+		return fmt.Sprintf("(setq %s (rplacd %s (list %d)))", op.Dst, op.Src, op.A)
+	case "copy-list", "reverse", "butlast", "cdr", "rest", "last", "nreverse":
 		return fmt.Sprintf("(setq %s (%s %s))", op.Dst, op.Op, op.Src)
 	case "subseq":
 		return fmt.Sprintf("(setq %s (subseq %s 0 %d))", op.Dst, op.Src, op.K)
@@ -110,7 +131,19 @@ func c06(args []string) {
 			for i, x := range st.Init[v] {
 				parts[i] = fmt.Sprint(x)
 			}
-			h.Eval(s, fmt.Sprintf("(setq %s (list %s))", v, strings.Join(parts, " ")))
+			elems := strings.Join(parts, " ")
+			switch st.Mode[v] {
+			case "spare":
+				h.Eval(s, fmt.Sprintf("(setq %s (remove 0 (list 0 %s 0)))", v, elems))
+			case "tail":
+				h.Eval(s, fmt.Sprintf("(setq %s (cdr (list 0 %s)))", v, elems))
+			case "butlast":
+				h.Eval(s, fmt.Sprintf("(setq %s (butlast (list %s 0)))", v, elems))
+			case "appended":
+				h.Eval(s, fmt.Sprintf("(setq %s (append (list %s) nil))", v, elems))
+			default:
+				h.Eval(s, fmt.Sprintf("(setq %s (list %s))", v, elems))
+			}
 		}
 		out.Emit(h.V{"t": st.ID, "i": 0, "op": "init", "dst": "", "src": "", "src2": "", "a": 0, "k": 0,
 			"ret": []int{}, "st": "ok", "vars": snap(), "form": ""})
